@@ -149,6 +149,94 @@ Proof.
   - simpl. split; [intros (out & H); discriminate|]. intros L. assert (false = true); [apply M; lia|discriminate].
 Qed.
 
+(* which non-blank tokens rm-tok-pattern keeps: rank w is removed iff it lies in the window and its pattern bit is set *)
+Definition keep_rank (start n:nat) (pat:list bool) (w:nat) : bool :=
+  negb ((start <=? w) && (w <? start + n) && nth (w - start) pat false).
+Fixpoint pat_spec (start n:nat) (pat:list bool) (nb:list tok) (w:nat) : list tok :=
+  match nb with
+  | [] => []
+  | t :: r => if keep_rank start n pat w then t :: pat_spec start n pat r (S w) else pat_spec start n pat r (S w)
+  end.
+
+Lemma pat_go_blank n idx t rest which started pat : blank t = true ->
+  rm_pat_go n idx (t :: rest) which started pat =
+  (fst (fst (rm_pat_go n idx rest which started pat)), snd (fst (rm_pat_go n idx rest which started pat)),
+   t :: snd (rm_pat_go n idx rest which started pat)).
+Proof. intros B. simpl. rewrite B. reflexivity. Qed.
+Lemma pat_go_nb n idx t rest which started pat : blank t = false ->
+  rm_pat_go n idx (t :: rest) which started pat =
+  let hit := Nat.eqb which idx in
+  let started2 := if Nat.eqb which (idx + n) then false else started || hit in
+  if started2 then
+    let b := match pat with b :: _ => b | [] => false end in
+    let r := rm_pat_go n idx rest (S which) started2 (tl pat) in
+    (hit || fst (fst r), b || snd (fst r), if b then snd r else t :: snd r)
+  else
+    let r := rm_pat_go n idx rest (S which) started2 pat in
+    (hit || fst (fst r), snd (fst r), t :: snd r).
+Proof. intros B. simpl. rewrite B. reflexivity. Qed.
+
+Definition pinv (start n:nat) (pat0:list bool) (which:nat) (started:bool) (pat:list bool) : Prop :=
+  (started = false /\ which <= start /\ pat = pat0) \/
+  (started = true /\ start < which /\ which <= start + n /\ pat = skipn (which - start) pat0) \/
+  (started = false /\ start + n < which) \/
+  (started = false /\ start < which /\ n = 0).
+
+Lemma hd_skipn (l:list bool) k : match skipn k l with b :: _ => b | [] => false end = nth k l false.
+Proof. revert l. induction k as [|k IH]; intros [|x l]; simpl; auto. Qed.
+Lemma tl_skipn (l:list bool) k : tl (skipn k l) = skipn (S k) l.
+Proof.
+  revert l. induction k as [|k IH]; intros l.
+  - destruct l as [|x [|y l']]; reflexivity.
+  - destruct l as [|x l']; [reflexivity|]. change (skipn (S k) (x :: l')) with (skipn k l').
+    change (skipn (S (S k)) (x :: l')) with (skipn (S k) l'). apply IH.
+Qed.
+
+Lemma rm_pat_nbs n start pat0 : forall ts which started pat,
+  pinv start n pat0 which started pat ->
+  nbs (snd (rm_pat_go n start ts which started pat)) = pat_spec start n pat0 (nbs ts) which.
+Proof.
+  induction ts as [|t rest IH]; intros which started pat I; [reflexivity|].
+  destruct (blank t) eqn:B.
+  - rewrite (pat_go_blank _ _ _ _ _ _ _ B), (nbs_cons_blank _ _ B). simpl snd. rewrite (nbs_cons_blank _ _ B). apply IH. exact I.
+  - rewrite (pat_go_nb _ _ _ _ _ _ _ B), (nbs_cons_nb _ _ B). cbv zeta. simpl pat_spec. unfold keep_rank.
+    destruct I as [(-> & L & ->)|[(-> & L1 & L2 & ->)|[(-> & L)|(-> & L & ->)]]].
+    + (* before the window *)
+      destruct (Nat.eqb_spec which start) as [->|NE].
+      * destruct (Nat.eqb_spec start (start + n)) as [E|NE2].
+        -- (* n = 0 *) assert (n = 0) by lia. subst n. cbn [orb]. simpl snd. rewrite (nbs_cons_nb _ _ B).
+           rewrite IH by (right; right; right; repeat split; lia).
+           replace (start <? start + 0) with false by (symmetry; apply Nat.ltb_ge; lia). rewrite andb_false_r. reflexivity.
+        -- cbn [orb]. rewrite Nat.sub_diag.
+           replace (start <=? start) with true by (symmetry; apply Nat.leb_le; lia).
+           replace (start <? start + n) with true by (symmetry; apply Nat.ltb_lt; lia). cbn [andb].
+           destruct pat0 as [|b0 p0]; simpl nth; simpl tl; cbn [negb].
+           ++ simpl snd. rewrite (nbs_cons_nb _ _ B). rewrite IH; [reflexivity|]. right. left. repeat split; try lia. replace (S start - start) with 1 by lia. reflexivity.
+           ++ destruct b0; simpl snd; cbn [negb]; rewrite ?(nbs_cons_nb _ _ B); rewrite IH; try reflexivity;
+                right; left; repeat split; try lia; replace (S start - start) with 1 by lia; reflexivity.
+      * assert (which < start) by lia.
+        destruct (Nat.eqb_spec which (start + n)); [lia|]. cbn [orb]. simpl snd. rewrite (nbs_cons_nb _ _ B).
+        rewrite IH by (left; repeat split; lia).
+        replace (start <=? which) with false by (symmetry; apply Nat.leb_gt; lia). reflexivity.
+    + (* inside *)
+      destruct (Nat.eqb_spec which start); [lia|].
+      destruct (Nat.eqb_spec which (start + n)) as [E|NE2].
+      * simpl snd. rewrite (nbs_cons_nb _ _ B). rewrite IH by (right; right; left; split; [reflexivity|lia]).
+        replace (which <? start + n) with false by (symmetry; apply Nat.ltb_ge; lia). rewrite andb_false_r. reflexivity.
+      * cbn [orb]. rewrite hd_skipn, tl_skipn.
+        replace (start <=? which) with true by (symmetry; apply Nat.leb_le; lia).
+        replace (which <? start + n) with true by (symmetry; apply Nat.ltb_lt; lia). cbn [andb].
+        destruct (nth (which - start) pat0 false); simpl snd; cbn [negb]; rewrite ?(nbs_cons_nb _ _ B); rewrite IH; try reflexivity;
+          right; left; repeat split; try lia; replace (S which - start) with (S (which - start)) by lia; reflexivity.
+    + (* after *)
+      destruct (Nat.eqb_spec which start); [lia|]. destruct (Nat.eqb_spec which (start + n)); [lia|].
+      cbn [orb]. simpl snd. rewrite (nbs_cons_nb _ _ B). rewrite IH by (right; right; left; split; [reflexivity|lia]).
+      replace (which <? start + n) with false by (symmetry; apply Nat.ltb_ge; lia). rewrite andb_false_r. reflexivity.
+    + destruct (Nat.eqb_spec which start); [lia|]. destruct (Nat.eqb which (start + 0)); cbn [orb]; simpl snd; rewrite (nbs_cons_nb _ _ B);
+        rewrite IH by (right; right; right; repeat split; lia);
+        replace (which <? start + 0) with false by (symmetry; apply Nat.ltb_ge; lia); rewrite andb_false_r; reflexivity.
+Qed.
+
 (* ---------------- delete-string ---------------- *)
 Lemma del_str_ok : forall idx ts which,
   fst (del_str_go idx ts which) = true <-> (which <= idx /\ idx < which + length (filter is_string ts)).
